@@ -118,7 +118,7 @@ AnswerAll(s, seq, r) == IF seq = <<>> THEN s ELSE AnswerAll(Answer(s, Head(seq),
 \* one of the receiver's activities)
 NewAct(kind, mb, src, dst, pay, sz, st, det, fin) ==
   [kind |-> kind, mb |-> mb, src |-> src, dst |-> dst, pay |-> pay, sz |-> sz, st |-> st, det |-> det, fin |-> fin,
-   rp |-> (src = 0), doom |-> FALSE, tag |-> 0, flt |-> 0]     \* tag: match data of the sender; flt: filter of the receiver
+   rp |-> (src = 0), doom |-> FALSE, tag |-> 0, flt |-> 0, ffd |-> -1]     \* ffd: date at which it failed     \* tag: match data of the sender; flt: filter of the receiver
 PayloadId(s, a) == a * 1000 + s.pc[a]                       \* the driver builds the same identifier
 FinDate(P, s, d) == IF P.timed THEN s.now + P.lat + d ELSE -1      \* CM02, factors 1: latency + size / bandwidth
 StartSt(s) == IF s.loff THEN "failed" ELSE "run"          \* CommImpl::start: a failed link is detected immediately
@@ -145,7 +145,7 @@ AnswerWaiters(s, as, c) == IF as = {} THEN s
 \* completion of a running activity: every actor blocked on it is answered (CommImpl::finish / ExecImpl::finish)
 \* (doom: a detached send whose source host died keeps flying and fails when it reaches its natural completion date:
 \* CommImpl::finish looks at the hosts then)
-Complete(P, s, c) == IF s.act[c].doom THEN FailWaiters([s EXCEPT !.act[c].st = "failed"], Waiters(P, s, c), "network_failure")
+Complete(P, s, c) == IF s.act[c].doom THEN FailWaiters([s EXCEPT !.act[c].st = "failed", !.act[c].ffd = s.now], Waiters(P, s, c), "network_failure")
                      ELSE AnswerWaiters([s EXCEPT !.act[c].st = "done"], Waiters(P, s, c), c)
 
 \* CommImpl::isend on mailbox b: first queued receive in arrival order, else queue (or start at once towards the
@@ -210,7 +210,7 @@ CancelAct(P, s, c) ==
   ELSE IF k.st = "wait"
   THEN IF k.kind = "comm" THEN [s EXCEPT !.act[c].st = "canceled", !.mbq[k.mb] = RemoveFirst(@, c)]
        ELSE [s EXCEPT !.act[c].st = "canceled", !.mqq[k.mb] = RemoveFirst(@, c)]
-  ELSE IF k.kind = "comm" THEN FailWaiters([s EXCEPT !.act[c].st = "failed"], Waiters(P, s, c), "network_failure")
+  ELSE IF k.kind = "comm" THEN FailWaiters([s EXCEPT !.act[c].st = "failed", !.act[c].ffd = s.now], Waiters(P, s, c), "network_failure")
   ELSE [s EXCEPT !.act[c].st = "canceled"]
 RECURSIVE CancelAll(_, _, _)
 CancelAll(P, s, cs) == IF cs = {} THEN s ELSE LET c == CHOOSE x \in cs : TRUE IN CancelAll(P, CancelAct(P, s, c), cs \ {c})
@@ -246,7 +246,7 @@ Running(s)     == { c \in 1..Len(s.act) : s.act[c].st = "run" }
 RECURSIVE FailSet(_, _, _)
 FailSet(P, s, cs) == IF cs = {} THEN s
                      ELSE LET c == CHOOSE x \in cs : TRUE IN
-                          FailSet(P, FailWaiters([s EXCEPT !.act[c].st = "failed"], Waiters(P, s, c), "network_failure"), cs \ {c})
+                          FailSet(P, FailWaiters([s EXCEPT !.act[c].st = "failed", !.act[c].ffd = s.now], Waiters(P, s, c), "network_failure"), cs \ {c})
 \* Host::turn_off: the actor of that host is killed (its on_exit callbacks see failed = true), every communication in flight
 \* from or to that host fails and the surviving peer blocked on it gets a NetworkFailureException (at once for the
 \* communications the dead actor takes part in; at their completion date for the detached sends it left behind)
@@ -563,7 +563,7 @@ Lifecycle(P, s) ==
   /\ \A a \in Actors(P) : s.ph[a] \in {"done", "dead"} => s.oerun[a] = Reverse(s.oe[a])
   /\ \A a \in Actors(P) : s.ph[a] = "exiting" => s.oerun[a] \o s.oex[a] = Reverse(s.oe[a])
   /\ \A a \in Actors(P) : (s.ph[a] = "blocked" /\ s.blk[a].kind = "join") => Alive(s, s.blk[a].o) \/ s.ph[s.blk[a].o] = "unborn"
-  /\ Terminal(P, s) => \A a \in Actors(P) : ~(s.dmn[a] /\ Alive(s, a))
+  /\ Terminal(P, s) => ((\E a \in Actors(P) : s.dmn[a] /\ Alive(s, a)) => \E b \in Actors(P) : ~s.dmn[b] /\ Alive(s, b))
 
 \* C10: nobody stays blocked on an activity that has failed, and an actor whose host is off is not running
 FailureReported(P, s) ==
